@@ -1,6 +1,6 @@
 /* harness-side stubs of the scheduler boundary used by flow-graph nodes (contract in comments) */
 #ifndef BAGMAX
-#define BAGMAX 6
+#define BAGMAX 8
 #endif
 #ifndef BAGRUNS
 #define BAGRUNS 4
@@ -11,7 +11,7 @@ static unsigned vp_new64_n, vp_new512_n;
 static void fg_reset(void) { bag_n = 0; n_alloc = 0; n_free = 0; vp_new_n = 0; vp_new64_n = 0; vp_new512_n = 0; }
 /* r1::allocate(small_object_pool*&, size_t): fresh storage */
 u8* _ZN3tbb6detail2r18allocateERPNS0_2d117small_object_poolEm(struct S_class_tbb__detail__d1__small_object_pool** pool, u64 n) {
-  VP_ASSERT(n <= vp_task_size() && n_alloc < 8, "VP bound: task allocation larger / more numerous than the typed task storage");
+  VP_ASSERT(n <= vp_task_size() && n_alloc < 16, "VP bound: task allocation larger / more numerous than the typed task storage (16)");
   return (u8*)vp_task_mem(n_alloc++); }
 /* r1::deallocate(small_object_pool&, void*, size_t, const execution_data&) */
 void _ZN3tbb6detail2r110deallocateERNS0_2d117small_object_poolEPvmRKNS2_14execution_dataE(struct S_class_tbb__detail__d1__small_object_pool* pool, u8* p, u64 n, struct S_struct_tbb__detail__d1__execution_data* ed) { n_free++; }
